@@ -30,6 +30,9 @@ Statement level
   * `if c: pass else: B` -> `if not c: B`; stray `pass` removed
   * `if a: S elif b: S else: T` -> `if a or b: S else: T` (equal arms, simple tests)
   * `a, b = (x, y)` -> `a = x`; `b = y` (plain distinct names not read on the right)
+  * `if (x := E): S` -> `x = E; if x: S`; a walrus in a later conjunct of an else-less test nests the test
+  * `x = A if c else B` -> `if c: x = A else: x = B`, likewise `return A if c else B` (whole-value conditionals)
+  * a local assigned once and read once by the next statement (first thing evaluated there, or a pure value) is inlined
   * case splitting (sa/casesplit.py): `if V in ('a','b'): S` whose body switches on V again -> one arm per literal
   * `if a: (if b: X)` without else -> `if a and b: X`;  `if k in M: x = M[k]` -> `x = M.get(k, x)`
   * with both arms present the positive test is kept: `if a is not None: A else: B` -> `if a is None: B else: A`
@@ -348,6 +351,50 @@ def _split_tuple_assigns(stmts):
     return out
 
 
+def _expand_walrus(stmts):
+    """`if (x := E): S` -> `x = E; if x: S`;  `if A and (x := E) and B: S` (no else) -> `if A: x = E; if x and B: S`"""
+    out = []
+    for s in stmts:
+        if isinstance(s, ast.If):
+            t = s.test
+            conj = list(t.values) if isinstance(t, ast.BoolOp) and isinstance(t.op, ast.And) else [t]
+            idx = [i for i, c in enumerate(conj) if isinstance(c, ast.NamedExpr) and isinstance(c.target, ast.Name)]
+            others = sum(1 for c in conj for n in ast.walk(c) if isinstance(n, ast.NamedExpr)) - len(idx)
+            if len(idx) == 1 and others == 0 and (idx[0] == 0 or not s.orelse):
+                i = idx[0]
+                w = conj[i]
+                asg = _loc(ast.Assign(targets=[_loc(ast.Name(id=w.target.id, ctx=ast.Store()), w)], value=w.value), w)
+                rest = [_loc(ast.Name(id=w.target.id, ctx=ast.Load()), w)] + conj[i + 1:]
+                inner_test = rest[0] if len(rest) == 1 else _loc(ast.BoolOp(op=ast.And(), values=rest), t)
+                inner = _loc(ast.If(test=inner_test, body=s.body, orelse=s.orelse), s)
+                if i == 0:
+                    out.extend([asg, inner])
+                else:
+                    pre = conj[:i]
+                    outer_test = pre[0] if len(pre) == 1 else _loc(ast.BoolOp(op=ast.And(), values=pre), t)
+                    out.append(_loc(ast.If(test=outer_test, body=[asg, inner], orelse=[]), s))
+                continue
+        out.append(s)
+    return out
+
+
+def _expand_ifexp(stmts):
+    """`x = A if c else B` -> `if c: x = A else: x = B`; likewise `return A if c else B`"""
+    out = []
+    for s in stmts:
+        v = getattr(s, "value", None)
+        if isinstance(s, (ast.Assign, ast.Return)) and isinstance(v, ast.IfExp) and not any(isinstance(n, (ast.NamedExpr, ast.Yield, ast.YieldFrom, ast.Await)) for n in ast.walk(v.test)):
+            if isinstance(s, ast.Assign):
+                mk = lambda val, s=s: _loc(ast.Assign(targets=copy.deepcopy(s.targets), value=val), s)
+            else:
+                mk = lambda val, s=s: _loc(ast.Return(value=val), s)
+            new = _loc(ast.If(test=v.test, body=_expand_ifexp([mk(v.body)]), orelse=_expand_ifexp([mk(v.orelse)])), s)
+            out.append(canon_stmt(ast.fix_missing_locations(new)))
+            continue
+        out.append(s)
+    return out
+
+
 def _fold_list_appends(stmts):
     """`X = [..]` directly followed by `X.append(e)` (e not mentioning X)  ->  e joins the display"""
     out = []
@@ -451,36 +498,65 @@ def _mentions(node, name):
     return any(isinstance(n, ast.Name) and n.id == name for n in ast.walk(node))
 
 
+def _has_call(e):
+    return any(isinstance(n, (ast.Call, ast.Await, ast.Yield, ast.YieldFrom)) for n in ast.walk(e))
+
+
 def _loops_to_comprehensions(stmts):
-    """`X = []` / `{}` / `set()` directly followed by a loop whose whole body appends to X (optionally under one
-    `if`)  ->  X = [e for t in it if c]   (only when neither e nor it mention X and the loop has no else)"""
-    out = []
+    """`X = []` / `{}` / `set()` followed (possibly after statements that do not mention X) by a loop whose whole
+    body appends to X (optionally under one `if`; for a dict optionally `k = E1; X[k] = E2`)
+      ->  X = [e for t in it if c]   placed where the loop was
+    (only when neither e nor it mention X, the loop has no else and its variables are not read afterwards)"""
+    stmts = list(stmts)
     i = 0
     while i < len(stmts):
         s = stmts[i]
-        nxt = stmts[i + 1] if i + 1 < len(stmts) else None
-        new = None
-        if isinstance(s, ast.Assign) and len(s.targets) == 1 and isinstance(s.targets[0], ast.Name) and isinstance(nxt, ast.For) and not nxt.orelse and len(nxt.body) == 1:
-            X = s.targets[0].id
-            kind = None
+        kind = None
+        if isinstance(s, ast.Assign) and len(s.targets) == 1 and isinstance(s.targets[0], ast.Name):
             if isinstance(s.value, ast.List) and not s.value.elts:
                 kind = "list"
             elif isinstance(s.value, ast.Dict) and not s.value.keys:
                 kind = "dict"
             elif isinstance(s.value, ast.Call) and isinstance(s.value.func, ast.Name) and s.value.func.id == "set" and not s.value.args and not s.value.keywords:
                 kind = "set"
-            inner = nxt.body[0]
+        if kind is None:
+            i += 1
+            continue
+        X = s.targets[0].id
+        j = i + 1
+        while j < len(stmts) and not _mentions(stmts[j], X):
+            j += 1
+        nxt = stmts[j] if j < len(stmts) else None
+        new = None
+        if isinstance(nxt, ast.For) and not nxt.orelse and len(nxt.body) in (1, 2) and not any(isinstance(x, (ast.For, ast.While, ast.With, ast.Try, ast.FunctionDef, ast.If)) for x in stmts[i + 1:j]):
+            body = list(nxt.body)
             conds = []
-            if isinstance(inner, ast.If) and not inner.orelse and len(inner.body) == 1:
-                conds = [inner.test]
-                inner = inner.body[0]
+            if len(body) == 1 and isinstance(body[0], ast.If) and not body[0].orelse and len(body[0].body) in (1, 2):
+                conds = [body[0].test]
+                body = list(body[0].body)
+            keytmp = None
+            if len(body) == 2 and kind == "dict" and isinstance(body[0], ast.Assign) and len(body[0].targets) == 1 and isinstance(body[0].targets[0], ast.Name):
+                keytmp = body[0]
+                body = body[1:]
+            inner = body[0] if len(body) == 1 else None
             elt = key = None
-            if kind == "list" and isinstance(inner, ast.Expr) and isinstance(inner.value, ast.Call) and isinstance(inner.value.func, ast.Attribute) and inner.value.func.attr == "append" and isinstance(inner.value.func.value, ast.Name) and inner.value.func.value.id == X and len(inner.value.args) == 1 and not inner.value.keywords:
-                elt = inner.value.args[0]
-            elif kind == "set" and isinstance(inner, ast.Expr) and isinstance(inner.value, ast.Call) and isinstance(inner.value.func, ast.Attribute) and inner.value.func.attr == "add" and isinstance(inner.value.func.value, ast.Name) and inner.value.func.value.id == X and len(inner.value.args) == 1:
-                elt = inner.value.args[0]
-            elif kind == "dict" and isinstance(inner, ast.Assign) and len(inner.targets) == 1 and isinstance(inner.targets[0], ast.Subscript) and isinstance(inner.targets[0].value, ast.Name) and inner.targets[0].value.id == X:
-                key, elt = inner.targets[0].slice, inner.value
+            if inner is not None:
+                if kind == "list" and isinstance(inner, ast.Expr) and isinstance(inner.value, ast.Call) and isinstance(inner.value.func, ast.Attribute) and inner.value.func.attr == "append" and isinstance(inner.value.func.value, ast.Name) and inner.value.func.value.id == X and len(inner.value.args) == 1 and not inner.value.keywords:
+                    elt = inner.value.args[0]
+                elif kind == "set" and isinstance(inner, ast.Expr) and isinstance(inner.value, ast.Call) and isinstance(inner.value.func, ast.Attribute) and inner.value.func.attr == "add" and isinstance(inner.value.func.value, ast.Name) and inner.value.func.value.id == X and len(inner.value.args) == 1:
+                    elt = inner.value.args[0]
+                elif kind == "dict" and isinstance(inner, ast.Assign) and len(inner.targets) == 1 and isinstance(inner.targets[0], ast.Subscript) and isinstance(inner.targets[0].value, ast.Name) and inner.targets[0].value.id == X:
+                    key, elt = inner.targets[0].slice, inner.value
+                    if keytmp is None and _has_call(key) and _has_call(elt):
+                        # X[k()] = v() evaluates v() first, {k(): v()} evaluates k() first
+                        elt = None
+                    elif keytmp is not None:
+                        kt = keytmp.targets[0].id
+                        if isinstance(key, ast.Name) and key.id == kt and not _mentions(elt, kt):
+                            key = keytmp.value
+                        else:
+                            elt = None
+            extra = [keytmp.targets[0].id] if keytmp is not None else []
             if elt is not None and not any(_mentions(x, X) for x in [elt, nxt.iter] + conds + ([key] if key is not None else [])) and not any(isinstance(n, (ast.Yield, ast.YieldFrom, ast.Await)) for n in ast.walk(nxt)):
                 gen = ast.comprehension(target=nxt.target, iter=nxt.iter, ifs=conds, is_async=0)
                 if kind == "list":
@@ -489,18 +565,16 @@ def _loops_to_comprehensions(stmts):
                     comp = ast.SetComp(elt=elt, generators=[gen])
                 else:
                     comp = ast.DictComp(key=key, value=elt, generators=[gen])
-                new = _loc(ast.Assign(targets=s.targets, value=_loc(comp, nxt)), s)
-                new._loop_targets = [n.id for n in ast.walk(nxt.target) if isinstance(n, ast.Name)]
+                loopvars = [n.id for n in ast.walk(nxt.target) if isinstance(n, ast.Name)] + extra
+                later = stmts[j + 1:]
+                if not any(_mentions(x, t) for x in later for t in loopvars):
+                    new = ast.fix_missing_locations(_loc(ast.Assign(targets=s.targets, value=_loc(comp, nxt)), nxt))
         if new is not None:
-            # the loop variable must not be read afterwards in this block (comprehension variables do not leak)
-            later = stmts[i + 2:]
-            if not any(_mentions(x, t) for x in later for t in new._loop_targets):
-                out.append(ast.fix_missing_locations(new))
-                i += 2
-                continue
-        out.append(s)
+            stmts[j] = new
+            del stmts[i]
+            continue
         i += 1
-    return out
+    return stmts
 
 
 def canon_block(stmts):
@@ -510,6 +584,8 @@ def canon_block(stmts):
     stmts = [canon_stmt(s) for s in stmts]
     if len(stmts) > 1:
         stmts = [s for s in stmts if not isinstance(s, ast.Pass)] or stmts[:1]
+    stmts = _expand_walrus(stmts)
+    stmts = _expand_ifexp(stmts)
     stmts = _split_tuple_assigns(stmts)
     stmts = _fold_dict_stores(stmts)
     stmts = _fold_list_appends(stmts)
@@ -683,6 +759,101 @@ def _strip_tail_continue(stmts):
     return stmts
 
 
+def _inline_single_use(fnode):
+    """a local assigned once and read once, by the very next statement of its block, before anything else with an
+    effect is evaluated there (or anywhere in it when the value is pure): the temporary is removed"""
+    from .inline import first_evaluated
+    from .unextract import _pure
+
+    changed = False
+    for _ in range(6):
+        stores, loads, blocked = {}, {}, set()
+        for n in ast.walk(fnode):
+            if isinstance(n, ast.Name):
+                (stores if isinstance(n.ctx, (ast.Store, ast.Del)) else loads).setdefault(n.id, []).append(n)
+            elif isinstance(n, ast.arg):
+                blocked.add(n.arg)
+            elif isinstance(n, (ast.Global, ast.Nonlocal)):
+                blocked |= set(n.names)
+            elif isinstance(n, (ast.Lambda, ast.FunctionDef, ast.AsyncFunctionDef)) and n is not fnode:
+                blocked |= {x.id for x in ast.walk(n) if isinstance(x, ast.Name)}
+            elif isinstance(n, ast.ExceptHandler) and n.name:
+                blocked.add(n.name)
+        cands = {k for k in stores if len(stores[k]) == 1 and len(loads.get(k, ())) == 1 and k not in blocked}
+        if not cands:
+            break
+        state = {"done": False}
+
+        def block(lst):
+            i = 0
+            while i + 1 < len(lst):
+                s0, s1 = lst[i], lst[i + 1]
+                if isinstance(s0, ast.Assign) and len(s0.targets) == 1 and isinstance(s0.targets[0], ast.Name) and s0.targets[0].id in cands and s0.targets[0] is stores[s0.targets[0].id][0]:
+                    name = s0.targets[0].id
+                    rd = loads[name][0]
+                    own = _own_expr(s1)
+                    if own is not None and any(x is rd for x in ast.walk(own)) and not isinstance(s1, ast.While):
+                        if first_evaluated(s1, name) or (_pure(s0.value) and not _under_binder(own, rd)):
+                            _replace_expr(s1, rd, s0.value)
+                            del lst[i]
+                            state["done"] = True
+                            continue
+                i += 1
+            for s_ in lst:
+                for f in ("body", "orelse", "finalbody"):
+                    sub = getattr(s_, f, None)
+                    if isinstance(sub, list) and not isinstance(s_, (ast.FunctionDef, ast.AsyncFunctionDef, ast.ClassDef)):
+                        block(sub)
+                if isinstance(s_, ast.Try):
+                    for h in s_.handlers:
+                        block(h.body)
+
+        block(fnode.body)
+        if not state["done"]:
+            break
+        changed = True
+    return changed
+
+
+def _own_expr(s):
+    if isinstance(s, (ast.Expr, ast.Return, ast.Assign, ast.AnnAssign, ast.AugAssign)):
+        return s.value
+    if isinstance(s, (ast.If, ast.While, ast.Assert)):
+        return s.test
+    if isinstance(s, ast.For):
+        return s.iter
+    if isinstance(s, ast.Raise):
+        return s.exc
+    return None
+
+
+def _under_binder(expr, target):
+    """target lies inside a lambda / comprehension of expr (where it would be evaluated repeatedly or later)"""
+    for n in ast.walk(expr):
+        if isinstance(n, ast.Lambda):
+            if any(x is target for x in ast.walk(n)):
+                return True
+        elif isinstance(n, (ast.ListComp, ast.SetComp, ast.DictComp, ast.GeneratorExp)):
+            first = list(ast.walk(n.generators[0].iter))
+            if any(x is target for x in ast.walk(n)) and not any(x is target for x in first):
+                return True
+    return False
+
+
+def _replace_expr(stmt, old, new):
+    for parent in ast.walk(stmt):
+        for f, v in ast.iter_fields(parent):
+            if v is old:
+                setattr(parent, f, new)
+                return True
+            if isinstance(v, list):
+                for i, x in enumerate(v):
+                    if x is old:
+                        v[i] = new
+                        return True
+    return False
+
+
 def _returns_value(fnode):
     todo = list(fnode.body)
     while todo:
@@ -806,6 +977,8 @@ def canon_stmt(s):
         s.body = canon_block(s.body)
         if not _returns_value(s):
             s.body = canon_block(_strip_tail_returns(s.body))
+        if _inline_single_use(s):
+            s.body = canon_block(s.body)
     elif isinstance(s, ast.ClassDef):
         s.body = [canon_stmt(x) for x in s.body]
     elif isinstance(s, ast.If):
